@@ -167,24 +167,53 @@ theorem sufChar_cases {c : Char} (h : isSufChar c = true) : c = 'u' ∨ c = 'U' 
   simp only [isSufChar, Bool.or_eq_true, decide_eq_true_eq] at h
   rcases h with ((h | h) | h) | h <;> simp [h]
 
-theorem stops_suffix (suf : List Char) (hs : ∀ c ∈ suf, isSufChar c = true) :
-    (∀ v n, scanHex suf v n = (v, n, suf)) ∧ (∀ v n, scanBin suf v n = (v, n, suf)) ∧
-    (∀ k b, scanDigits suf k b = (k, b, suf)) := by
+/-- what can follow a literal inside an expression (the end of the text is `[]`) -/
+def termChars : List Char :=
+  [' ', '\t', '\n', ')', ']', '}', '+', '-', '*', '/', '%', '<', '>', '=', '!', '&', '|', '^', '?', ':', ',', ';', '~']
+
+/-- the text after a literal: nothing, or something that starts with a terminator -/
+def Term (rest : List Char) : Prop := rest = [] ∨ ∃ c t, rest = c :: t ∧ c ∈ termChars
+
+theorem term_facts : ∀ c ∈ termChars,
+    hexStep c = none ∧ (c ≠ '0' ∧ c ≠ '1') ∧ ¬('0' ≤ c ∧ c ≤ '9') ∧ c ≠ '.' ∧
+    upper c ≠ 'L' ∧ upper c ≠ 'U' ∧ upper c ≠ 'E' ∧ upper c ≠ 'F' ∧ upper c ≠ 'B' ∧ upper c ≠ 'X' := by
+  decide
+
+theorem stops_term (rest : List Char) (hr : Term rest) :
+    (∀ v n, scanHex rest v n = (v, n, rest)) ∧ (∀ v n, scanBin rest v n = (v, n, rest)) ∧
+    (∀ k b, scanDigits rest k b = (k, b, rest)) := by
+  rcases hr with rfl | ⟨c, t, rfl, hc⟩
+  · exact ⟨fun _ _ => rfl, fun _ _ => rfl, fun _ _ => rfl⟩
+  · obtain ⟨h1, h2, h3, h4, _⟩ := term_facts c hc
+    exact ⟨fun _ _ => by rw [scanHex_cons, h1], fun _ _ => by simp [scanBin, h2.1, h2.2],
+      fun _ _ => by simp [scanDigits, h3, h4]⟩
+
+theorem stops_suffix (suf rest : List Char) (hs : ∀ c ∈ suf, isSufChar c = true) (hr : Term rest) :
+    (∀ v n, scanHex (suf ++ rest) v n = (v, n, suf ++ rest)) ∧ (∀ v n, scanBin (suf ++ rest) v n = (v, n, suf ++ rest)) ∧
+    (∀ k b, scanDigits (suf ++ rest) k b = (k, b, suf ++ rest)) := by
   cases suf with
-  | nil => exact ⟨fun _ _ => rfl, fun _ _ => rfl, fun _ _ => rfl⟩
+  | nil => simpa using stops_term rest hr
   | cons c t =>
     rcases sufChar_cases (hs c (by simp)) with rfl | rfl | rfl | rfl <;>
-      exact ⟨fun _ _ => by rw [scanHex_cons]; rfl, fun _ _ => by simp [scanBin], fun _ _ => by simp [scanDigits]⟩
+      exact ⟨fun _ _ => by rw [List.cons_append, scanHex_cons]; rfl, fun _ _ => by simp [scanBin],
+        fun _ _ => by simp [scanDigits]⟩
 
 def sufLongs (suf : List Char) : Nat := (suf.filter (fun c => c = 'l' ∨ c = 'L')).length
 def sufUnsigned (suf : List Char) : Bool := suf.any (fun c => c = 'u' ∨ c = 'U')
 
-theorem scanSuffix_suffix (loadRec : List Char → Prim × List Char) (fmt : Bool) (suf : List Char)
-    (hs : ∀ c ∈ suf, isSufChar c = true) :
-    ∀ st : Suffix, scanSuffix loadRec fmt suf st =
-      { st with longs := st.longs + sufLongs suf, unsigned_ := st.unsigned_ || sufUnsigned suf, rest := [] } := by
+theorem scanSuffix_term (loadRec : List Char → Prim × List Char) (fmt : Bool) (rest : List Char) (hr : Term rest)
+    (st : Suffix) : scanSuffix loadRec fmt rest st = { st with rest := rest } := by
+  rcases hr with rfl | ⟨c, t, rfl, hc⟩
+  · rfl
+  · obtain ⟨_, _, _, _, hL, hU, hE, hF, _⟩ := term_facts c hc
+    simp [scanSuffix, hL, hU, hE, hF]
+
+theorem scanSuffix_suffix (loadRec : List Char → Prim × List Char) (fmt : Bool) (suf rest : List Char)
+    (hs : ∀ c ∈ suf, isSufChar c = true) (hr : Term rest) :
+    ∀ st : Suffix, scanSuffix loadRec fmt (suf ++ rest) st =
+      { st with longs := st.longs + sufLongs suf, unsigned_ := st.unsigned_ || sufUnsigned suf, rest := rest } := by
   induction suf with
-  | nil => intro st; simp [scanSuffix, sufLongs, sufUnsigned]
+  | nil => intro st; simp [scanSuffix_term loadRec fmt rest hr, sufLongs, sufUnsigned]
   | cons c t ih =>
     intro st
     have iht := ih (fun x hx => hs x (by simp [hx]))
